@@ -43,7 +43,7 @@ def cert_goals(ctx):
         # all-pressure compressibility, both branches; the root solver is an oracle of the model:
         # it is instantiated with the density the implementation found (its residual is C06's business)
         tpc, ppc = float(rng.uniform(-110, -40)), float(rng.uniform(600, 700))
-        for p in (float(rng.uniform(100, 0.98 * pb)), float(rng.uniform(1.02 * pb, 2.5 * pb))):
+        for p in (float(rng.uniform(min(100, 0.5 * pb), 0.98 * pb)), float(rng.uniform(1.02 * pb, 2.5 * pb))):
             v = float(oil.oil_compressibility_Standing(T, p, api, gg, rsi, tpc, ppc))
             rho = z_rho(T, p, tpc, ppc)
             args = " ".join(core.frac(a) for a in (T, p, api, gg, rsi, tpc, ppc, 60.0, 14.7))
